@@ -64,6 +64,7 @@ fn main() {
     tier = "quick".into();
   }
   let ctx = Ctx { tier, replay };
+  util::start_watchdog(&id);
 
   util::quiet_panics();
   // ord builds a fresh multi-thread tokio runtime (one worker per core) inside every
